@@ -110,7 +110,13 @@ def run_case(acc, rnd, tier, case):
             # plan: on its k-th delivery this target detaches a binding of some sender (itself or another)
             cands = [(s.i, b[0]) for s in nodes for b in s.bindings]
             s_i, hh = rnd.choice(cands)
-            hooks.setdefault(tid, []).append([rnd.randint(1, 4), s_i, hh])
+            n_del = rnd.randint(1, 4)
+            hooks.setdefault(tid, []).append([n_del, s_i, hh])
+            if rnd.random() < 0.4 and len(cands) > 1:
+                # the same delivery detaches a second binding (itself + an earlier one, two earlier ones, ...)
+                s_j, h2 = rnd.choice([c for c in cands if c[1] is not hh])
+                hooks[tid].append([n_del, s_j, h2])
+                acc.count('double_detach_planned')
         return h
 
     # initial topology
